@@ -489,3 +489,72 @@ Proof.
   intros K V keqb Hk data ps Hc k. rewrite !lookup_gbk by assumption.
   cbn [concat]. rewrite app_nil_r, Hc. reflexivity.
 Qed.
+
+(* ---------- Window's Eq / Ord / Hash agree on (start, end) ---------- *)
+Lemma window_eq_iff_pair : forall a b : window, window_eqb a b = true <-> a = b.
+Proof. intros a b. destruct (window_eqb_spec a b) as [H|H]; split; congruence. Qed.
+
+Lemma window_cmp_eq_iff : forall a b : window, window_cmp a b = Eq <-> a = b.
+Proof.
+  intros [a1 a2] [b1 b2]. unfold window_cmp. cbn [fst snd]. split.
+  - destruct (a1 ?= b1) eqn:H1; try discriminate. intros H2.
+    apply Z.compare_eq in H1. apply Z.compare_eq in H2. congruence.
+  - intros H. injection H as -> ->. rewrite !Z.compare_refl. reflexivity.
+Qed.
+
+Lemma window_cmp_antisym : forall a b : window, window_cmp b a = CompOpp (window_cmp a b).
+Proof.
+  intros [a1 a2] [b1 b2]. unfold window_cmp. cbn [fst snd].
+  rewrite (Z.compare_antisym a1 b1), (Z.compare_antisym a2 b2).
+  destruct (a1 ?= b1); reflexivity.
+Qed.
+
+Lemma window_hash_feed_iff : forall a b : window, window_hash_feed a = window_hash_feed b <-> a = b.
+Proof.
+  intros [a1 a2] [b1 b2]. unfold window_hash_feed. cbn [fst snd]. split; intros H.
+  - injection H as -> ->. reflexivity.
+  - injection H as -> ->. reflexivity.
+Qed.
+
+Lemma window_consistent : forall a b : window,
+    (window_eqb a b = true <-> a = b)
+    /\ (window_cmp a b = Eq <-> a = b)
+    /\ window_partial_cmp a b = Some (window_cmp a b)
+    /\ (window_hash_feed a = window_hash_feed b <-> a = b)
+    /\ window_cmp b a = CompOpp (window_cmp a b).
+Proof.
+  intros a b. repeat split; try apply window_eq_iff_pair; try apply window_cmp_eq_iff;
+    try apply window_hash_feed_iff; apply window_cmp_antisym.
+Qed.
+
+(* ---------- any tagging `map` followed by group_by_key; two window sizes in one grouping ---------- *)
+Lemma group_by_tagged_exact : forall E K V (keqb : K -> K -> bool),
+    (forall x y, reflect (x = y) (keqb x y)) ->
+    forall (tagf : E -> outcome (K * V)) (g : E -> K * V) (ps : list (list E)),
+      (forall e, In e (concat ps) -> tagf e = Ok (g e)) ->
+      exists groups,
+        group_by_tagged keqb tagf ps = Ok groups
+        /\ exact_grouping keqb groups (map g (concat ps)).
+Proof.
+  intros E K V keqb Hk tagf g ps Hok. exists (gbk keqb (map (map g) ps)). split.
+  - unfold group_by_tagged. rewrite (map_outcome2_ok _ _ tagf g ps Hok). reflexivity.
+  - rewrite <- concat_map_map. apply gbk_exact. exact Hk.
+Qed.
+
+Definition spec_tag_mixed {V} (s1 s2 off : Z) (e : Z * (Z * V)) : window * V :=
+  (spec_window (if fst e =? 0 then s1 else s2) off (fst (snd e)), snd (snd e)).
+
+Lemma group_by_mixed_window_exact : forall V (s1 s2 off : Z) (ps : list (list (Z * (Z * V)))),
+    1 <= s1 -> 1 <= s2 ->
+    (forall e, In e (concat ps) ->
+               unrepresentable (fst (snd e)) (if fst e =? 0 then s1 else s2) off = false) ->
+    exists groups,
+      group_by_mixed_window tumble_debug s1 s2 off ps = Ok groups
+      /\ exact_grouping window_eqb groups (map (spec_tag_mixed s1 s2 off) (concat ps)).
+Proof.
+  intros V s1 s2 off ps H1 H2 Hrep. unfold group_by_mixed_window.
+  apply group_by_tagged_exact; [apply window_eqb_spec|].
+  intros e Hin. unfold tag_mixed, spec_tag_mixed.
+  assert (Hs : 1 <= (if fst e =? 0 then s1 else s2)) by (destruct (fst e =? 0); assumption).
+  rewrite (tumble_total_outside_class _ _ _ Hs (Hrep e Hin)). reflexivity.
+Qed.
